@@ -254,6 +254,10 @@ def handleLex (req : Json) : Except String String := do
   | "decodeImpl" => pure (optStr (Lex.decodeImpl cs))
   | "decodeImplDQ" => pure (optStr (Lex.decodeImplDQ cs))
   | "decodeSpec" => pure (optStr (Lex.decodeSpec cs))
+  | "decodeAnsiIdent" => pure (optStr (Lex.decodeAnsiIdent cs))
+  | "decodeBacktickIdent" => pure (optStr (Lex.decodeBacktickIdent cs))
+  | "decodeSquareIdent" => pure (optStr (Lex.decodeSquareIdent cs))
+  | "literalField" => pure (optStr (some (Lex.literalField cs)))
   | "matchSQ" =>
     match Lex.matchSQ cs with
     | some (b, r) => pure ("{\"body\":" ++ jstr (String.ofList b) ++ ",\"rest\":" ++ jstr (String.ofList r) ++ "}")
